@@ -1,8 +1,8 @@
 package main
 
 import (
-	"go/token"
 	"fmt"
+	"go/token"
 	"go/types"
 	"sort"
 	"strings"
@@ -464,9 +464,11 @@ func runC20(c *Ctx) {
 			acc := acc
 			H := []string{`invoke:Listener.Accept#1 != nil`, `select[recv:Server.done|default]#0 != 0`, `assert[net.Error](invoke:Listener.Accept#1)#1 == true`, `invoke:Error.Temporary == true`}
 			v := RunPend(f, PendRule{
-				Trig:     func(in ssa.Instruction) bool { return in == acc },
-				Forbid:   func(in ssa.Instruction) bool { _, isRet := in.(*ssa.Return); return isRet },
-				Disch:    func(in ssa.Instruction) bool { return in != acc && labelHas(c.stdLabels(in), "icall:iface:(net.Listener).Accept") },
+				Trig:   func(in ssa.Instruction) bool { return in == acc },
+				Forbid: func(in ssa.Instruction) bool { _, isRet := in.(*ssa.Return); return isRet },
+				Disch: func(in ssa.Instruction) bool {
+					return in != acc && labelHas(c.stdLabels(in), "icall:iface:(net.Listener).Accept")
+				},
 				SkipEdge: c.F.SkipUnder(H...),
 				PhiOK:    c.F.PhiFeasible(H...),
 			})
